@@ -14,8 +14,7 @@ def atomic_begin(ctx, rule='C04.atomic-begin'):
         hdr, rel = ctx.need('DBInner::meta', 'release-role')
     except AnchorError as e:
         return [unresolved(rule, str(e))]
-    bf = c09.begin_fn(ctx)
-    wp = c09.writable_param(bf)
+    bf, wp = c03.registry_scope(ctx)
     L = c09.locks_of(ctx)
     lr = L.info(bf, {wp: False})
     lw = L.info(bf, {wp: True})
